@@ -23,6 +23,8 @@ func main() {
 		os.Exit(cmdCheck(os.Args[2:]))
 	case "replay":
 		os.Exit(cmdReplay(os.Args[2:]))
+	case "cexable":
+		cmdCexable()
 	case "selftest":
 		os.Exit(cmdSelftest(os.Args[2:]))
 	default:
@@ -161,4 +163,46 @@ func reportFn(fc *FnCtx, work string, timeout int, verbose bool) []*Verdict {
 		fmt.Println("   abstraction:", a)
 	}
 	return vs
+}
+
+// cmdCexable lists, per property, the functions under contract whose failing obligations can be replayed on the real code.
+func cmdCexable() {
+	verif := envOr("GOVC_VERIF", "/verif")
+	cfgs := map[string]*PropCfg{}
+	loadJSON(filepath.Join(verif, "contracts", "properties.json"), &cfgs)
+	var props []string
+	for p := range cfgs {
+		props = append(props, p)
+	}
+	sort.Strings(props)
+	for _, p := range props {
+		e := NewEngine(envOr("GOVC_REPO", "/repo"), verif)
+		if err := e.LoadSpecs(); err != nil {
+			fmt.Println(err)
+			return
+		}
+		if err := e.Load(cfgs[p].Packages); err != nil {
+			fmt.Println(err)
+			return
+		}
+		n := 0
+		var yes []string
+		for _, k := range e.Spec.Order {
+			c := e.Spec.Funcs[k]
+			has := false
+			for _, q := range c.Props {
+				if q == p {
+					has = true
+				}
+			}
+			if !has || c.Trusted || e.Funcs[k] == nil {
+				continue
+			}
+			n++
+			if ok, _ := cexEligible(e.Funcs[k]); ok {
+				yes = append(yes, k[strings.LastIndex(k, "/")+1:])
+			}
+		}
+		fmt.Printf("%s: %d of %d functions replayable: %v\n", p, len(yes), n, yes)
+	}
 }
